@@ -15,7 +15,9 @@ def install(w):
     # enter: returns the first result that is neither None nor a control value, else None
     w.contract(f"{PV}.enter", params={"node": "dyn", "args": ("list", "dyn")}, closure=CL,
                returns="dyn",
-               requires=["len(self.skipping) == len(enter_list)", "is_other(node)"],
+               requires=["len(self.skipping) == len(enter_list)", "is_other(node)",
+                         # the handler lists hold visitor methods or None (A1)
+                         "forall(j, 0, len(enter_list), is_none(enter_list[j]) or is_other(enter_list[j]))"],
                ensures=["is_none(result) or not (IsSkip(result) or IsBreak(result))",
                         "len(self.skipping) == old(len(self.skipping))",
                         # a visitor that is skipping (or has stopped) is left alone by enter
@@ -35,7 +37,8 @@ def install(w):
     # leave: SKIP/False from a leave handler is ignored (never returned), BREAK sticks
     w.contract(f"{PV}.leave", params={"node": "dyn", "args": ("list", "dyn")}, closure=CL,
                returns="dyn",
-               requires=["len(self.skipping) == len(leave_list)", "is_other(node)"],
+               requires=["len(self.skipping) == len(leave_list)", "is_other(node)",
+                         "forall(j, 0, len(leave_list), is_none(leave_list[j]) or is_other(leave_list[j]))"],
                ensures=["is_none(result) or not (IsSkip(result) or IsBreak(result))",
                         "len(self.skipping) == old(len(self.skipping))",
                         # BREAK sticks; a visitor skipping another node keeps skipping
